@@ -510,6 +510,15 @@ def verdict(devs):
     return 'K:' + '+'.join(tags) + ' | ' + '; '.join(d for _, d in devs[:3])
 
 
+
+def strict_failing(st, case, failing):
+    """while shrinking a NEW violation, a smaller case that only shows a recorded finding does not count"""
+    why = st.oracle(case, st.observe(case))
+    if why and why.startswith('NEW'):
+        return lambda cc: (st.oracle(cc, st.observe(cc)) or '').startswith('NEW')
+    return failing
+
+
 def observing(f):
     try:
         return f()
@@ -628,6 +637,7 @@ class Flat(Stream):
                 'impl': {'properties': (o.get('d') if not is_err(o.get('d')) else o.get('d'))}}
 
     def shrink(self, case, failing):
+        failing = strict_failing(self, case, failing)
         case = copy.deepcopy(case)
         i = len(case['props']) - 1
         while i >= 0:
@@ -655,7 +665,7 @@ def gen_tree(rng, kind, depth, budget, cover, ids, mode=None, parent_type=None):
     def children(ck, maxn):
         if depth <= 0 or budget[0] <= 0:
             return rng.choice([None, None, []])
-        n = rng.randint(0, maxn)
+        n = rng.choice([0] + list(range(1, maxn + 1)) * 2)
         if n == 0:
             return rng.choice([None, []])
         out, names = [], set()
@@ -718,8 +728,8 @@ class Deep(Stream):
         n = 70 if tier == 'quick' else 1500
         out = []
         for i in range(n):
-            kind = rng.choice(['node', 'node', 'node', 'node', 'service', 'service', 'interface', 'link', 'component'])
-            budget = [rng.choice([1, 3, 6, 10, 14] if tier == 'quick' else [1, 3, 6, 10, 20, 30])]
+            kind = rng.choice(['node'] * 6 + ['service'] * 3 + ['interface', 'interface', 'link', 'component'])
+            budget = [rng.choice([2, 4, 6, 10, 14] if tier == 'quick' else [2, 4, 6, 10, 20, 30])]
             out.append(gen_tree(rng, kind, 4, budget, self.cover, [0]))
         return out
 
@@ -836,6 +846,7 @@ class Deep(Stream):
                 'impl': {'dict_keys': [p[0] for p in o['dict']['p']] if 'dict' in o and not is_err(o['dict']) else None}}
 
     def shrink(self, case, failing):
+        failing = strict_failing(self, case, failing)
         case = copy.deepcopy(case)
 
         def walk(t, path):
@@ -898,7 +909,7 @@ class Element(Stream):
     case_type = 'kind * props * list op * list opres * props'
     check_fn = 'check_elem'
     shard = 50
-    rule = ('sequences of 2-8 set_property / set_properties / get_property / unset operations on a node, component, '
+    rule = ('sequences of 2-8 (thorough: 2-16) set_property / set_properties / get_property / unset operations on a node, component, '
             'service, interface or link element of a live ExperimentTopology (in-memory backend), property names from '
             'the class\'s full setter vocabulary; distinct by operation list; non-trivial = at least one set followed by a '
             'get of the same property')
@@ -949,7 +960,7 @@ class Element(Stream):
                                             ['unset', p], ['get', p]]})
         for i in range(n):
             k = kinds[i % len(kinds)]
-            out.append({'k': k, 'ops': self.gen_ops(rng, k, rng.randint(2, 8))})
+            out.append({'k': k, 'ops': self.gen_ops(rng, k, rng.randint(2, 8 if tier == 'quick' else 16))})
         return out
 
     def corpus(self):
@@ -1042,7 +1053,7 @@ class Element(Stream):
                     if ex != 'raises':
                         devs.append((None, 'op %d set %s raised %s' % (idx, p, r['err'])))
                     continue
-                state[p] = ('set', ex)
+                state[p] = ('set', ex, 'single')
                 if p != 'stitch_node':
                     state.pop('stitch_node', None)
                 if p == 'image_ref':
@@ -1053,18 +1064,17 @@ class Element(Stream):
                 if is_err(r):
                     devs.append((None, 'op %d set_properties raised %s' % (idx, r['err'])))
                     continue
+                qs = [q for q, _ in op[1]]
                 for q, v in op[1]:
+                    alone = (q == 'image_ref' and 'image_type' not in qs) or (q == 'image_type' and 'image_ref' not in qs)
                     try:
                         bare = I.CLS[case['k']]()
                         bare.set_property(q, build_value(v))
-                        state[q] = ('set', tok(bare.get_property(q)))
+                        state[q] = ('set', tok(bare.get_property(q)), 'single' if alone else 'multi')
                     except Exception:
                         state.pop(q, None)
-                qs = [q for q, _ in op[1]]
                 if 'stitch_node' not in qs:
                     state.pop('stitch_node', None)
-                if ('image_ref' in qs) != ('image_type' in qs):
-                    state[('image_ref' if 'image_ref' in qs else 'image_type')] = ('set-alone', None)
             elif op[0] == 'unset':
                 p = op[1]
                 g = G.SLIVER_PROPERTY_TO_GRAPH.get(p)
@@ -1088,14 +1098,11 @@ class Element(Stream):
                 if st[0] == 'set':
                     if json.dumps(got) != json.dumps(st[1]):
                         tag = None
-                        if p in ('image_ref', 'image_type') and got is None:
-                            tag = 'image-pair'
+                        if p in ('image_ref', 'image_type') and st[2] == 'single':
+                            tag = 'image-pair'      # set without its partner: a no-op, the old value (or None) is read
                         elif st[1] is not None and st[1][0] == 'FObj' and st[1][2] == '' and got is None:
                             tag = 'empty-object'
                         devs.append((tag, 'op %d get %s after set: %s, expected %s' % (idx, p, json.dumps(got)[:70], json.dumps(st[1])[:70])))
-                elif st[0] == 'set-alone':
-                    if got is None:
-                        devs.append(('image-pair', 'op %d get %s after a set without its partner: None' % (idx, p)))
                 elif st[0] == 'unset':
                     if got is not None:
                         tag = None
@@ -1131,6 +1138,7 @@ class Element(Stream):
         return {'case': case, 'impl': {'results': o.get('res')}}
 
     def shrink(self, case, failing):
+        failing = strict_failing(self, case, failing)
         case = copy.deepcopy(case)
         i = len(case['ops']) - 1
         while i >= 0 and len(case['ops']) > 1:
